@@ -74,8 +74,9 @@ def releaseArena (f : Frame) (st : RState) : R RState :=
   match f.arenaEnd with
   | none => .ok st
   | some e =>
-    -- `stack[sp] >= def_param_stack_data && stack[sp] < def_param_stack_data + PARAM_STACK_LEN`
-    if e < paramStackLen then
+    -- `stack[sp] > def_param_stack_data && stack[sp] <= def_param_stack_data + PARAM_STACK_LEN`
+    -- (the pointer is already one past the NUL)
+    if 0 < e ∧ e ≤ paramStackLen then
       match st.arena with
       | _ :: a :: as => .ok { st with arena := a :: as }      -- def_param_stack_count--
       | _ => .exit1                                           -- count < 0: print_error_internal; exit(1)
